@@ -30,6 +30,7 @@
 #include <sys/mount.h>
 #include <sys/prctl.h>
 #include <sys/socket.h>
+#include <sys/resource.h>
 #include <sys/stat.h>
 #include <sys/syscall.h>
 #include <sys/types.h>
@@ -52,6 +53,8 @@ static int g_nsinkfiles;
 static int g_sample_sinks = 1;
 static int g_sample_state = 1;
 static long g_case_timeout_ms = 20000;
+static int g_orphan_fd = -1;   /* set in an orphaned fork block: where to report a regular end */
+static int g_preerrno = 0;     /* value errno holds when the wrapped call (or an in-vitro call) is entered */
 static int g_automark;
 static pid_t g_fifo_reader;
 
@@ -514,7 +517,7 @@ static void do_call(char **tok, int ntok) {
     int (*volatile p_execv)(const char *, char *const *) = execv;
     int (*volatile p_execve)(const char *, char *const *, char *const *) = execve;
     dirty_stack();
-    errno = 0;
+    errno = g_preerrno;
     int r = is_v ? p_execv(path, argv) : p_execve(path, argv, envp);
     int e = errno;
 
@@ -646,7 +649,17 @@ static void do_oracle(long id) {
             if (!val[0]) break;
             int pp = atoi(val);
             char nm[300];
-            read_status_field(pid, "Name", nm, sizeof nm);
+            {
+                /* the name as the kernel keeps it: /proc/<pid>/comm is the raw name plus one newline (leading blanks stay) */
+                char cp[64];
+                snprintf(cp, sizeof cp, "/proc/%d/comm", pid);
+                int cfd = open(cp, O_RDONLY);
+                ssize_t cn = cfd >= 0 ? read(cfd, nm, sizeof nm - 1) : -1;
+                if (cfd >= 0) close(cfd);
+                if (cn < 0) cn = 0;
+                nm[cn] = 0;
+                if (cn > 0 && nm[cn - 1] == '\n') nm[cn - 1] = 0;
+            }
             size_t cl = strlen(chainbuf);
             snprintf(chainbuf + cl, sizeof chainbuf - cl, "%s%d", cl ? "," : "", pid);
             if (pp == 1 || pp == 0) {
@@ -715,6 +728,7 @@ static int do_vitro(char **tok, int nt) {
         return 1;
     }
     dirty_stack();
+    errno = g_preerrno;
     if (!strcmp(c, "vds")) { /* vds id name arg size */
         char *name = decode_bytes(tok[2], NULL), *arg = decode_bytes(tok[3], NULL);
         size_t size = strtoul(tok[4], NULL, 10);
@@ -851,7 +865,13 @@ static void exec_line(char *line) {
         g_nsinkfiles = 0;
     } else if (!strcmp(c, "casetimeout")) g_case_timeout_ms = atol(tok[1]);
     else if (!strcmp(c, "automark")) g_automark = atoi(tok[1]);
-    else if (!strcmp(c, "nosinks")) g_sample_sinks = 0;
+    else if (!strcmp(c, "preerrno")) g_preerrno = atoi(tok[1]);
+    else if (!strcmp(c, "fsize")) {
+        /* file size limit with SIGXFSZ ignored: the write crossing the limit comes back short, later ones fail with EFBIG */
+        struct rlimit rl = {strtoul(tok[1], NULL, 10), strtoul(tok[1], NULL, 10)};
+        signal(SIGXFSZ, SIG_IGN);
+        setrlimit(RLIMIT_FSIZE, &rl);
+    } else if (!strcmp(c, "nosinks")) g_sample_sinks = 0;
     else if (!strcmp(c, "nostate")) g_sample_state = 0;
     else if (!strcmp(c, "stdin")) {
         const char *m = tok[1];
@@ -925,6 +945,48 @@ static void exec_line(char *line) {
             close(p[0]);
             close(p[1]);
         }
+    } else if (!strcmp(c, "orphan")) {
+        /* orphan : the rest of this fork block runs in a grandchild that has lost its parent (re-parented to pid 1 or the
+           nearest subreaper), in a process group of its own; this process waits for that tree to end and passes on whether
+           it ended by itself (exit 0) or died / hung (exit 97 / 98) */
+        int pp[2];
+        if (pipe(pp) != 0) exit(3);
+        fflush(NULL);
+        pid_t a = fork();
+        if (a == 0) {
+            pid_t mid = getpid();
+            pid_t p = fork();
+            if (p != 0) _exit(0);
+            close(pp[0]);
+            setpgid(0, 0);
+            pid_t me_ = getpid();
+            if (write(pp[1], &me_, sizeof me_) != sizeof me_) _exit(3);
+            for (int i = 0; i < 5000 && getppid() == mid; i++) usleep(1000);
+            g_orphan_fd = pp[1];
+            return;
+        }
+        close(pp[1]);
+        int st_ = 0;
+        while (waitpid(a, &st_, 0) < 0 && errno == EINTR) {}
+        pid_t orphan = 0;
+        if (read(pp[0], &orphan, sizeof orphan) != sizeof orphan) _exit(97);
+        struct pollfd pf = {pp[0], POLLIN, 0};
+        long budget = g_case_timeout_ms > 2000 ? g_case_timeout_ms - 1000 : g_case_timeout_ms / 2;
+        char b = 0;
+        int got = 0;
+        for (;;) {
+            int pr = poll(&pf, 1, (int) budget);
+            if (pr < 0 && errno == EINTR) continue;
+            if (pr <= 0) {
+                kill(-orphan, SIGKILL);
+                _exit(98);
+            }
+            ssize_t r = read(pp[0], &b, 1);
+            if (r == 1) { got = 1; continue; }
+            if (r < 0 && errno == EINTR) continue;
+            break;
+        }
+        _exit(got ? 0 : 97);
     } else if (!strcmp(c, "chain")) {
         /* chain name1,name2,...,leaf : this process becomes name1 and forks name2 ... ; only the leaf returns */
         char *dup = strdup(tok[1]), *sv = NULL;
@@ -1118,6 +1180,7 @@ static void exec_line(char *line) {
         pid_t p = fork();
         if (p == 0) {
             run_script();
+            if (g_orphan_fd >= 0 && write(g_orphan_fd, "0", 1) != 1) _exit(3);
             _exit(0);
         }
         int st = 0;
